@@ -8,7 +8,7 @@ EXTENDS ArgEval
 \* exist when cfg.usageshort / cfg.usagelong are set); cfg.help adds -h,--help.  These standard
 \* arguments are listed like any other optional argument (they come first: defined by the constructor).
 StdArg(s, l) == [s |-> s, l |-> l, pos |-> FALSE, mand |-> FALSE, hidden |-> FALSE, depr |-> FALSE, repl |-> <<>>,
-                 checks |-> <<>>, req |-> <<>>, exc |-> <<>>, kind |-> "flag", printdef |-> "no", std |-> TRUE]
+                 checks |-> <<>>, req |-> <<>>, exc |-> <<>>, kind |-> "flag", printdef |-> "no", std |-> TRUE, nodesc |-> FALSE]
 StdArgs(cfg) == (IF cfg.help THEN <<StdArg(104, <<104, 101, 108, 112>>)>> ELSE <<>>)
                 \o (IF cfg.usageshort THEN <<StdArg(0, <<104, 101, 108, 112, 45, 115, 104, 111, 114, 116>>)>> ELSE <<>>)
                 \o (IF cfg.usagelong THEN <<StdArg(0, <<104, 101, 108, 112, 45, 108, 111, 110, 103>>)>> ELSE <<>>)
@@ -26,8 +26,10 @@ KeyText(cont, arg) ==
      [] OTHER -> IF arg.s # 0 /\ Len(arg.l) > 0 THEN sk \o <<44>> \o lk ELSE IF arg.s # 0 THEN sk ELSE lk
 \* default value printed: optional argument whose destination type prints defaults (or explicitly switched)
 PrintsDefault(arg) == ~arg.mand /\ (IF arg.printdef = "dflt" THEN arg.kind \in {"int", "str", "dbl", "level", "valint"} ELSE arg.printdef = "yes")
+\* arg.nodesc: the argument was defined with an empty description text (then no token identifies its entry: the
+\* entry is there all the same, recognised by its key text)
 EntryOf(cont, arg, toks) ==
-   [cap |-> IF arg.mand THEN "m" ELSE "o", key |-> KeyText(cont, arg), toks |-> toks,
+   [cap |-> IF arg.mand THEN "m" ELSE "o", key |-> KeyText(cont, arg), toks |-> IF arg.nodesc THEN <<>> ELSE toks,
     dflt |-> PrintsDefault(arg), check |-> Len(arg.checks) > 0, cons |-> Len(arg.req) + Len(arg.exc) > 0,
     hid |-> arg.hidden, depr |-> arg.depr /\ Len(arg.repl) = 0, repl |-> arg.depr /\ Len(arg.repl) > 0]
 RECURSIVE ListFrom(_, _, _, _)
@@ -43,12 +45,15 @@ ContOf(via, argv) == IF via = "help" /\ \E k \in 1..Len(argv) : argv[k] = <<45, 
                      ELSE IF via = "help" /\ \E k \in 1..Len(argv) : argv[k] = <<45, 45, 104, 101, 108, 112, 45, 108, 111, 110, 103>> THEN "long"
                      ELSE "all"
 
-\* ---- the property, declaratively
+\* ---- the property, declaratively (an entry belongs to argument a when it carries a's token or, for an argument
+\* without description text, a's key text - key texts of different arguments differ)
+EntryIsOf(cfg, cont, e, a) == IF cfg.args[a].nodesc THEN e.toks = <<>> /\ e.key = KeyText(cont, cfg.args[a]) ELSE e.toks = <<a>>
 ExactlyVisibleOnce(cfg, cont) ==
    LET L == Listing(cfg, cont) IN
-   /\ \A a \in 1..NArgs(cfg) : Cardinality({k \in 1..Len(L) : L[k].toks = <<a>>}) = (IF Visible(cfg, cont, cfg.args[a]) THEN 1 ELSE 0)
-   /\ \A k \in 1..Len(L) : Len(L[k].toks) = 1 => L[k].cap = (IF cfg.args[L[k].toks[1]].mand THEN "m" ELSE "o")
+   /\ \A a \in 1..NArgs(cfg) : Cardinality({k \in 1..Len(L) : EntryIsOf(cfg, cont, L[k], a)}) = (IF Visible(cfg, cont, cfg.args[a]) THEN 1 ELSE 0)
+   /\ \A k \in 1..Len(L), a \in 1..NArgs(cfg) : EntryIsOf(cfg, cont, L[k], a) => L[k].cap = (IF cfg.args[a].mand THEN "m" ELSE "o")
 
-\* help for one argument: typed key text (short character or complete long key) -> argument index or 0 (unknown)
-HelpArgOf(cfg, key) == IF Len(key) = 1 THEN LookupShort(cfg, key[1]) ELSE LookupLong([cfg EXCEPT !.abbr = FALSE], key)
+\* help for one argument: typed key text (short character, complete long key or - when the handler accepts
+\* abbreviations - an unambiguous beginning of a long key) -> argument index, 0 (unknown) or -1 (ambiguous: open)
+HelpArgOf(cfg, key) == IF Len(key) = 1 THEN LookupShort(cfg, key[1]) ELSE LookupLong(cfg, key)
 =============================================================================
